@@ -1103,6 +1103,15 @@ def stride_function(rep, f, c, rule, fn):
                 need = set(range(min(nsub, k_ // 16 + 1)))
             elif rv[0] == 'call':
                 need = set(range(nsub))
+            if need is not None and vn == 'Some' and b.locals[2]['ty'].count('u8') and nsub > 1:
+                # what is stored beyond the sub-stride that holds the reported position is garbage after `written`: the &mut str
+                # receivers scrub MAX_STRIDE_SIZE (one sub-stride) bytes and no more (C05-D1), the "leaves the rest unmodified"
+                # contracts (C15-D1) are computed from the same bound
+                n += 1
+                extra_ = sorted(stored - need)
+                rep.ob(rule + '.excess', '%s:Some@+%d' % (fn, k_), not extra_,
+                       'an offending unit is reported in sub-stride %d but destination sub-stride(s) %s have been stored as well: more than one stride of unvalidated '
+                       'bytes can follow the reported count (the str receivers scrub one stride)' % (max(need), extra_), site, {'stored': sorted(stored)}, c)
             if need is not None:
                 n += 1
                 miss_ = sorted(need - stored)
